@@ -379,3 +379,44 @@ func tokensString(g *gSpec, toks []int) string {
 	}
 	return sb.String()
 }
+
+// genPrec adds 1..4 precedence groups over distinct terminals and %prec markers on some rules.
+func genPrec(t *rapid.T, g *gSpec, precRulePercent int) {
+	if g.T < 2 {
+		return
+	}
+	ng := rapid.IntRange(1, 4).Draw(t, "precGroups")
+	used := map[int]bool{}
+	for i := 0; i < ng; i++ {
+		p := gPrec{Assoc: rapid.IntRange(0, 2).Draw(t, "assoc")}
+		k := rapid.IntRange(1, 2).Draw(t, "precTerms")
+		for j := 0; j < k; j++ {
+			term := rapid.IntRange(1, g.T-1).Draw(t, "precTerm")
+			if !used[term] {
+				used[term] = true
+				p.Terms = append(p.Terms, term)
+			}
+		}
+		if len(p.Terms) > 0 {
+			g.Prec = append(g.Prec, p)
+		}
+	}
+	for i := range g.Rules {
+		if rapid.IntRange(0, 99).Draw(t, "hasPrec") < precRulePercent {
+			g.Rules[i].Prec = rapid.IntRange(1, g.T-1).Draw(t, "rulePrec")
+		}
+	}
+}
+
+// gAmbiguousFamilies are expression-like seeds whose conflicts are meant to be settled by precedence.
+var gAmbiguousFamilies = []string{
+	"E: E p E | E m E | a",
+	"E: E p E | E m E | n E | l E r | a",
+	"E: E q E c E | E p E | a",
+	"S: i S | i S e S | x",
+	"E: E E | a | b",
+	"E: E p E | E m E | E x E | a",
+	"E: n E | E f | E p E | a",
+	"S: E ; E: E p T | T p E | T ; T: a | l E r",
+	"E: E l E | E g E | a",
+}
